@@ -352,6 +352,27 @@ example : ∃ k zs, drainF (solveAt (defs Order.default) 4 4) k
         ts = [Term.var 0].map (apply γ)) :=
   C02_query_exact_checked Order.default ⟨fun _ => .refl _, fun _ => .refl _, fun _ => .refl _⟩ (defs Order.default) 2 2 2 exP
     ⟨trivial, trivial, trivial, trivial⟩ (.var 1) [.var 0] (by decide +kernel)
+/-- a second instantiation: two query variables, a hidden variable, a disequality between a query variable and the hidden one,
+    nested `conde` under `fresh`, an improper-list binding — `|x, y| { fresh |h| { x == [1 | h], conde { h == [] ; [h != [2], y == h] } } }`
+    (`x0`, `x1` query variables, `x2` hidden, `x3` = `__query__`) -/
+private def exP2 : FProg := .fresh (.conj (.atom (.eq (.var 0) (.cons (Term.num 1) (.var 2))))
+  (.alt (.atom (.eq (.var 2) .nil))
+    (.conj (.atom (.neq (.var 2) (Term.ofList [Term.num 2]))) (.atom (.eq (.var 1) (.var 2))))))
+example : ∃ k zs, drainF (solveAt (defs Order.default) 4 4) k
+      (solveAt (defs Order.default) 4 4 (queryG Order.default (.var 3) [.var 0, .var 1] [exP2.goal Order.default]) (State.empty 4)) = some zs ∧
+    ∀ ts : List Term,
+      (∃ z ∈ zs, ∃ δ : Subst, (∀ c ∈ (mkAnswer Order.default [.var 0, .var 1] z).constraints, DiseqHolds δ c) ∧
+        ts = (mkAnswer Order.default [.var 0, .var 1] z).terms.map (apply δ)) ↔
+      (∃ path ∈ exP2.paths, ∃ γ : Subst, apply γ (.var 3) = apply γ (Term.ofList [.var 0, .var 1]) ∧ (∀ a ∈ path, (tOf a).Sat γ) ∧
+        ts = [Term.var 0, Term.var 1].map (apply γ)) :=
+  C02_query_exact_checked Order.default ⟨fun _ => .refl _, fun _ => .refl _, fun _ => .refl _⟩ (defs Order.default) 2 2 4 exP2
+    ⟨trivial, trivial, trivial, trivial⟩ (.var 3) [.var 0, .var 1] (by decide +kernel)
+/-- … and what the engine reports for it: `([1], _0)` and `([1 | _0], _0)` with the constraint `_0 != [2]` -/
+example : (drainF (solveAt (defs Order.default) 4 4) 400
+    (solveAt (defs Order.default) 4 4 (queryG Order.default (.var 3) [.var 0, .var 1] [exP2.goal Order.default]) (State.empty 4))).map
+      (fun zs => zs.map fun z => ((mkAnswer Order.default [.var 0, .var 1] z).terms, (mkAnswer Order.default [.var 0, .var 1] z).constraints)) =
+    some [([Term.ofList [Term.num 1], .var 4], []),
+          ([.cons (Term.num 1) (.var 4), .var 4], [[(4, Term.ofList [Term.num 2])]])] := by decide +kernel
 /-- `C02_query_any_body` at work: `|x| { member(x, [1, 2, 1]) }` — the engine on the whole query goal delivers one answer per
     matching position (`C24_member_one_per_position`), each reified -/
 example : (drainF (solveAt (defs Order.default) 4 4) 400
